@@ -892,6 +892,15 @@ def _extreme(vals, which, nan):
         return Sym.of(max(cs) if which == "max" else min(cs))
     c = cur()
     mode = c.options.get("extreme", "fresh")
+    if any(v.is_complex() for v in vals):
+        # numpy orders complex numbers lexicographically (real part first); exact ties of the
+        # real parts are outside generic position
+        best = vals[0]
+        for v in vals[1:]:
+            r = (v.real > best.real) if which == "max" else (v.real < best.real)
+            if bool(r):
+                best = v
+        return best
     if mode == "fork":
         best = vals[0]
         for v in vals[1:]:
@@ -1077,8 +1086,38 @@ def _count_nonzero(x, axis=None, **kw):
     return np.count_nonzero(a, axis=axis, **kw)
 
 
+def _where_ite(cond, x, y):
+    """np.where(symbolic comparison, const, const) without forking: a fresh r per entry with
+    (r - x)(r - y) = 0 and  p * (2t - 1) >= 0  where t = (r - y)/(x - y) and the condition is p >= 0"""
+    c = cur()
+    co = cond.a
+    xo, yo = np.broadcast_to(obj(x), co.shape), np.broadcast_to(obj(y), co.shape)
+    out = np.empty(co.shape, dtype=object)
+    for idx in np.ndindex(*co.shape):
+        r = co[idx]
+        xv, yv = Sym.of(xo[idx]), Sym.of(yo[idx])
+        if not isinstance(r, Rel):
+            out[idx] = xv if bool(r) else yv
+            continue
+        if r.kind not in ("ge", "gt", "le", "lt") or not (xv.is_const() and yv.is_const()) or xv.const() == yv.const():
+            out[idx] = xv if bool(r) else yv
+            continue
+        p = r.p if r.kind in ("ge", "gt") else -r.p
+        truth = r.concrete(c.eval(r.p))
+        val = float(xv.const()) if truth else float(yv.const())
+        v = c.new_var(f"ite{len(c.vars)}", "aux", val, f"where({r.fmt(c.name_of)[:60]}, {xv}, {yv})")
+        c.assume("eq", (v - xv.p) * (v - yv.p), "ite: value is one of the two branches")
+        t = (v - yv.p) * Poly.const(1 / (xv.const() - yv.const()))
+        c.assume("ge", p * (t.scale(2) - Poly.const(1)), "ite: branch agrees with the sign of the condition")
+        out[idx] = Sym(v)
+    return SymArray(out, F64)
+
+
 @implements(np.where)
 def _where(cond, x=None, y=None):
+    if isinstance(cond, SymArray) and cond.dtype == BOOL and x is not None and y is not None and cur().options.get("ite_merge", True):
+        if not isinstance(x, SymArray) and not isinstance(y, SymArray):
+            return _where_ite(cond, x, y)
     if isinstance(cond, SymArray):
         cond = cond.concretise_bool() if cond.dtype == BOOL else cond.astype(bool)
         if isinstance(cond, SymArray):
